@@ -1,6 +1,7 @@
 """A small process pool with an explicit environment per pool (the
 implementation of zope.interface is chosen at import time by PURE_PYTHON, and
 hash randomisation by PYTHONHASHSEED, so both are per-process settings)."""
+import collections
 import os
 import queue
 import subprocess
@@ -49,10 +50,31 @@ class _Proc:
             stdin=subprocess.PIPE, stdout=subprocess.PIPE,
             stderr=subprocess.PIPE if self.capture else None,
             env=self.env, cwd=VERIF)
+        self.tail = collections.deque(maxlen=400)
+        if self.capture:
+            # drain stderr continuously: a worker that writes more than a pipe
+            # buffer (warnings, faulthandler dumps) must never block on it
+            def drain(stream, tail):
+                try:
+                    for line in iter(stream.readline, b''):
+                        tail.append(line)
+                except Exception:
+                    pass
+            self._drain = threading.Thread(target=drain, args=(self.p.stderr, self.tail),
+                                           daemon=True)
+            self._drain.start()
         r = _read(self.p.stdout)
         if not r or r[0] != 'ready':
-            err = self.p.stderr.read().decode(errors='replace') if self.capture else ''
-            raise InternalError('worker did not start: %r %s' % (r, err[-2000:]))
+            raise InternalError('worker did not start: %r %s' % (r, self._stderr_tail()[-2000:]))
+
+    def _stderr_tail(self):
+        if not self.capture:
+            return ''
+        try:
+            self._drain.join(timeout=2)
+        except Exception:
+            pass
+        return b''.join(self.tail).decode(errors='replace')
 
     def call(self, mod, fn, arg):
         try:
@@ -62,12 +84,7 @@ class _Proc:
             r = None
         if r is None:
             rc = self.p.wait()
-            tail = ''
-            if self.capture:
-                try:
-                    tail = self.p.stderr.read().decode(errors='replace')[-3000:]
-                except Exception:
-                    pass
+            tail = self._stderr_tail()[-3000:]
             self.start()
             return Crash(rc, tail)
         if r[0] == 'err' and len(r) > 2 and r[2]:
